@@ -436,12 +436,6 @@ namespace Pistache::Async
                 void doReject(const std::shared_ptr<CoreT<T>>& core) override
                 {
                     reject_(core->exc);
-                    PV_LOCK(this->chain_->mtx, "chain.reject.lock");
-                    std::unique_lock<std::mutex> guard(this->chain_->mtx);
-                    for (const auto& req : this->chain_->requests)
-                    {
-                        req->reject(this->chain_);
-                    }
                 }
 
                 template <typename Ret>
@@ -488,12 +482,6 @@ namespace Pistache::Async
                 void doReject(const std::shared_ptr<CoreT<void>>& core) override
                 {
                     reject_(core->exc);
-                    PV_LOCK(this->chain_->mtx, "chain.reject.lock");
-                    std::unique_lock<std::mutex> guard(this->chain_->mtx);
-                    for (const auto& req : this->chain_->requests)
-                    {
-                        req->reject(this->chain_);
-                    }
                 }
 
                 template <typename Ret>
@@ -607,10 +595,6 @@ namespace Pistache::Async
                 void doReject(const std::shared_ptr<CoreT<T>>& core) override
                 {
                     reject_(core->exc);
-                    for (const auto& req : core->requests)
-                    {
-                        req->reject(core);
-                    }
                 }
 
                 template <typename PromiseType>
@@ -689,10 +673,6 @@ namespace Pistache::Async
                 void doReject(const std::shared_ptr<CoreT<void>>& core) override
                 {
                     reject_(core->exc);
-                    for (const auto& req : core->requests)
-                    {
-                        req->reject(core);
-                    }
                 }
 
                 template <typename PromiseType, typename Dummy = void>
